@@ -24,7 +24,7 @@ PROPS = {
         "claimed": True,
         "title": "P2PK locks: spendable only with the required signatures (NUT-11)",
         "lean": ["Gonuts.Props.C12", "Gonuts.Tie.Spend"],
-        "streams": ["p2pk", "spendmint"],
+        "streams": ["p2pk", "spendmint", "spendwallet"],
         "level": "proof",
         "technique": "Lean 4 theorems over Model.Spend (line-by-line model of nut11.go and of the SIG_ALL code in mint.go; Schnorr validity, key parsing and the clock are parameters) against the declarative Spec.Spendable; pinned function bodies + skeleton ties; differential correspondence and a model-free NUT-11 evaluator on real btcec keys/signatures",
         "design_ref": "DESIGN.md §4.3, §5 C12",
@@ -40,16 +40,16 @@ PROPS = {
         "claimed": True,
         "title": "HTLC locks: spendable only with the preimage and required signatures (NUT-14)",
         "lean": ["Gonuts.Props.C13", "Gonuts.Tie.Spend"],
-        "streams": ["htlc", "spendmint"],
+        "streams": ["htlc", "spendmint", "spendwallet"],
         "level": "proof",
         "technique": "Lean 4 theorems over Model.Spend (line-by-line model of nut14.go and the HTLC branch of verifyBlindedMessages; SHA-256 of the preimage, Schnorr validity and the clock are parameters) against the declarative Spec.Spendable; pinned function bodies; differential correspondence and a model-free NUT-14 evaluator on real keys/signatures/preimages",
         "design_ref": "DESIGN.md §4.3, §5 C13",
         "text": 'For ALL inputs the Lean model of the repaired code satisfies: VerifyHTLCProof = ok implies — and, when a signature verifies under at most one listed key, is equivalent to — the declarative NUT-14 statement Spec.spendableHTLC (before the locktime: the hex-decoded preimage hashes to the 64-character lock value and, if n_sigs>0, n_sigs distinct positions of pubkeys signed with no repeated signature string; after it only the refund rule); a non-hex or wrong preimage and a lock value that is not 64 characters are rejections; with a SIG_ALL HTLC first input a successful swap has every output carrying the preimage and the signatures; the witnesses written by AddWitnessHTLC (inputs) and AddWitnessHTLCToOutputs (outputs) are accepted whenever the helper succeeds, the preimage is right and the key is listed. Stream htlc: exhaustive product hash x n_sigs x pubkeys x locktime x refund x sigflag x (7 preimage + 14 signature shapes) with real signatures, SIG_ALL output shapes, helpers end to end, model-free NUT-14 evaluator.',
-        "note": "Defect F8 (AddWitnessHTLCToOutputs signed the hex text of B_) and the HTLC face of F6 were reproduced on the unchanged code (findings/F8.json, F6-htlc.json), repaired (27d7371, b480424) and are re-run as regressions. Observations: an HTLC with a `pubkeys` tag but no `n_sigs` needs no signature (the code keys the signature check on n_sigs>0, as the property statement does); SIG_ALL + HTLC without pubkeys can never pass the output check (threshold 1 over an empty key list) — safe; the SIG_ALL consistency check compares key lists and thresholds but not the hash of different HTLC inputs (outputs are checked against the FIRST input's hash). wallet.ReceiveHTLC itself is not executed.",
+        "note": "Defect F8 (AddWitnessHTLCToOutputs signed the hex text of B_) and the HTLC face of F6 were reproduced on the unchanged code (findings/F8.json, F6-htlc.json), repaired (27d7371, b480424) and are re-run as regressions. Observations: an HTLC with a `pubkeys` tag but no `n_sigs` needs no signature (the code keys the signature check on n_sigs>0, as the property statement does); SIG_ALL + HTLC without pubkeys can never pass the output check (threshold 1 over an empty key list) — safe; the SIG_ALL consistency check compares key lists and thresholds but not the hash of different HTLC inputs (outputs are checked against the FIRST input's hash). wallet.ReceiveHTLC and wallet.Receive are executed end to end by stream spendwallet (two real wallets, real mint over in-process HTTP): on the unrepaired code that stream reports F8 as a failed ReceiveHTLC of a SIG_ALL HTLC token.",
         "assumptions": COMMON_ASSUME + [
             "signatures, keys, digests are symbolic ids; `valid` and `sha256hex` are parameters (instantiated with real btcec signatures and crypto/sha256 by the stream)",
             "the JSON decoding of secrets and witnesses is outside the model",
-            "wallet.ReceiveHTLC is covered through its two helpers (AddWitnessHTLC, AddWitnessHTLCToOutputs) and their order in the wallet skeleton, not by running a wallet against a mint",
+            "the wallet flows (stream spendwallet) are monitor-only: a fixed table of lock configurations with the outcome NUT-11/14 prescribe, not a model comparison",
         ],
     },
 }
